@@ -2,7 +2,7 @@
    Statements only; proofs are in Proofs/C01.v and Proofs/C01_delim.v. *)
 From Coq Require Import ZArith List Bool Arith.
 From Coq Require Import String.
-From BNP Require Import Base.Prims Model.C01 Proofs.C01 Proofs.C01_delim Proofs.C01_lines Gen.C01 Bridge.C01.
+From BNP Require Import Base.Prims Model.C01 Proofs.C01 Proofs.C01_delim Proofs.C01_lines Proofs.C01_mfasta Gen.C01 Bridge.C01.
 Import ListNotations.
 
 (* T1 (every format, both reader modes, the repaired and the pinned code): whatever the chunk size,
@@ -63,6 +63,19 @@ Proof.
   rewrite <- Hc. symmetry. apply lines_concat. exact HE.
 Qed.
 Print Assumptions C01_oneline_records_exact.
+
+(* T5 (wrapped FASTA; repaired code): for EVERY file, every chunk size >= 1 and both reader modes, a completed stream
+   has dropped exactly the new-entry marker that was appended at end of file, the concatenated chunks are the
+   newline-terminated file, and every chunk starts at a record ('>') and ends at a line break. *)
+Theorem C01_mfasta_chunks_exact :
+  forall m k file chunks dropped app lines,
+    (1 <= k)%nat ->
+    read_chunks true MultiFasta m k file = Done chunks dropped app lines ->
+    (file = [] /\ chunks = [] /\ dropped = [])
+    \/ (dropped = [62%Z] /\ List.concat chunks = norm_text file
+        /\ Forall (fun c => ends_nl c = true /\ nthZ c 0 = 62%Z) chunks).
+Proof. exact mfasta_chunks_exact. Qed.
+Print Assumptions C01_mfasta_chunks_exact.
 
 (* Source tie: the decision rules and arithmetic of the reader regenerated from /repo on this run (Gen/C01.v, by
    translate/gen_c01.py from parser.py, one_line_buffer.py, fastq_buffer.py, delimited_buffers.py) are the ones the
